@@ -40,7 +40,7 @@ ASSUMPTIONS = [
 UNPROVED = [
     "`the emitted C compiles cleanly for every accepted program`: no theorem; 13 fixed witness programs, the layout probes and 8 (quick) / 60 (thorough) generated whole programs built with --sanitize (the open findings are programs the analyzer accepts and a C compiler rejects or UBSan flags)",
     "`runs without C-level undefined behaviour` for whole programs: only per-helper/per-operator theorems (division, shifts, + - * unary-, comparisons, narrowing) and the memcmp bounds of nelua_eq_; temporaries, lifetimes, aliasing casts, zero initialisers, declaration order, use after scope: sanitized runs only",
-    "`///` `%%%` and unsigned `//` `%`: undefined for a zero divisor and MIN / -1 (C03_tdiv_no_ub_refuted, C03_udiv_no_ub_refuted; 6 open findings)",
+    "`///` `%%%` and unsigned `//` `%`: undefined for a zero divisor and MIN / -1 (C03_tdiv_no_ub_refuted, C03_udiv_no_ub_refuted; 6 open findings); only same-type operands are modelled: the mixed-signedness forms (`((T)((T)l / (T)r))` since /repo 8eb30df) are C02's subject",
     "float -> integer narrowing outside the target range (C03_narrow_float_defined_refuted; 2 open findings); float arithmetic, float -> float narrowing, libm calls: not modelled",
     "integer narrowing h_narrow_int and the bitwise operators have no theorem (they cannot be undefined by the shape of their C)",
     "eq_accesses (the modelled memcmp calls of nelua_eq_<type>) is proved in bounds but its list is not compared with the memcmp calls in the emitted C (only the scraped sizeof argument and the sanitized eqprobe runs tie it)",
